@@ -516,3 +516,30 @@ _instances_before_simplex = instances
 def instances(tier):       # noqa: F811
     from .common import simplex_lemma_instances
     return _instances_before_simplex(tier) + simplex_lemma_instances('C18')
+
+
+_instances_before_history4 = instances
+
+
+def instances(tier):       # noqa: F811
+    # history: the same contracts after calls with other shapes / axes / options in the same process (results are functions of the arguments)
+    from .common import with_history
+    from pb_bss.extraction import mask_module as mm
+
+    def warm():
+        rng = np.random.RandomState(3)
+        for shape, kw in (((3, 4, 5), {}), ((2, 3, 4, 5), {'sensor_axis': 1}), ((4, 6), {}), ((5, 2, 3), {'source_axis': 1})):
+            s_ = rng.normal(size=shape) + 1j * rng.normal(size=shape)
+            for fn in (mm.ideal_binary_mask, mm.wiener_like_mask):
+                fn(s_, **kw)
+            for fn in (mm.ideal_ratio_mask, mm.ideal_amplitude_mask, mm.ideal_complex_mask, mm.phase_sensitive_mask):
+                fn(s_, **{k: v for k, v in kw.items() if k == 'source_axis'})
+        mm.quantile_mask(rng.normal(size=(4, 7)) + 0j, quantile=0.3)
+        mm.lorenz_mask(rng.normal(size=(4, 7)) + 0j)
+    extra = [with_history(pooled_mask_instance('binary', 2, 2, 2, 0, 1, False), warm, 'other-shapes'),
+             with_history(pooled_mask_instance('wiener', 2, 2, 2, 1, 0, False), warm, 'other-shapes'),
+             with_history(simple_mask_instance('ratio', 2, 2, 0), warm, 'other-shapes'),
+             with_history(simple_mask_instance('complex', 2, 2, 1), warm, 'other-shapes'),
+             with_history(quantile_instance(3, 0.4), warm, 'other-shapes')]
+    return _instances_before_history4(tier) + extra
+
